@@ -22,7 +22,13 @@ impl Eq for FilterPattern {}
 
 impl FilterPattern {
     pub(crate) fn new(pattern: String) -> Result<Self, DarkluaError> {
-        let glob = Glob::new(&pattern)
+        // the paths given to `matches` are normalized: a `./` in the pattern can be dropped
+        let mut normalized_pattern = pattern.replace("/./", "/");
+        while let Some(rest) = normalized_pattern.strip_prefix("./") {
+            normalized_pattern = rest.to_owned();
+        }
+
+        let glob = Glob::new(&normalized_pattern)
             .map(Glob::into_owned)
             .map_err(|err| DarkluaError::invalid_glob_pattern(&pattern, err.to_string()))?;
         Ok(Self {
